@@ -112,6 +112,7 @@ def build_lib(flavor="plain", extra_defs=()):
     d = os.path.join(BUILD, "lib_" + flavor + "_" + key)
     objs = [os.path.join(d, s.replace(".cpp", ".o")) for s in LIBSRC]
     if all(os.path.exists(o) for o in objs):
+        _touch(d)
         return objs
     os.makedirs(d, exist_ok=True)
     procs = []
@@ -142,6 +143,7 @@ def build_harness(name, flavor="plain", sources=None, link_lib=True, extra_defs=
     d = os.path.join(BUILD, "h_" + name + "_" + flavor + "_" + key)
     exe = os.path.join(d, name)
     if os.path.exists(exe):
+        _touch(d)
         return exe
     os.makedirs(d, exist_ok=True)
     objs = build_lib(flavor, extra_defs) if link_lib else []
@@ -168,14 +170,23 @@ def build_harness(name, flavor="plain", sources=None, link_lib=True, extra_defs=
     return exe
 
 
-def _gc_builds(keep=40):
-    """keep the build directory bounded (disk is limited)"""
+def _gc_builds(keep=120, min_age_s=4 * 3600):
+    """keep the build directory bounded (disk is limited): drop build products not used for hours"""
     try:
         ds = [os.path.join(BUILD, x) for x in os.listdir(BUILD)]
         ds = [d for d in ds if os.path.isdir(d) and (os.path.basename(d).startswith("lib_") or os.path.basename(d).startswith("h_"))]
         ds.sort(key=lambda d: os.path.getmtime(d))
+        now = time.time()
         for d in ds[:-keep]:
-            shutil.rmtree(d, ignore_errors=True)
+            if now - os.path.getmtime(d) > min_age_s:
+                shutil.rmtree(d, ignore_errors=True)
+    except OSError:
+        pass
+
+
+def _touch(d):
+    try:
+        os.utime(d, None)
     except OSError:
         pass
 
@@ -254,7 +265,7 @@ def tlc(module, cfg, workers=None, timeout=600, simulate=None, depth=None, seed=
     m = re.search(r"The depth of the complete state graph search is (\d+)", out)
     if m:
         r.depth = int(m.group(1))
-    for m in re.finditer(r"^<(\w+) line \d+, col \d+ to line \d+, col \d+ of module (\w+)>: (\d+):(\d+)", out, re.M):
+    for m in re.finditer(r"^<(\w+) line \d+, col \d+ to line \d+, col \d+ of module (\w+)(?: \([\d ]+\))?>: (\d+):(\d+)", out, re.M):
         nm = m.group(1)
         a, b = int(m.group(3)), int(m.group(4))
         if nm in r.coverage:
